@@ -448,6 +448,23 @@ func c09(r *vlib.Run) int {
 		}
 	})
 
+	// ---------------- the real clients of the fixed service users: dtailhealth
+	// must get its health session (exit 0, "OK"); a session is granted "to the
+	// health user with the health password", and the client is what presents it
+	for k := 0; k < r.N(3, 12); k++ {
+		home := r.Dir(fmt.Sprintf("c09health%d", k))
+		res := vlib.RunCmd(vlib.Cmd{Path: r.Bin("dtailhealth"), Args: []string{"--server", srv.Addr()}, Env: []string{"HOME=" + home}, Dir: home, Watchdog: 60 * time.Second})
+		r.Eval(fmt.Sprintf("dtailhealth|%d", k))
+		r.Count("real_dtailhealth_runs", 1)
+		if res.TimedOut {
+			r.Inconclusive("dtailhealth-watchdog")
+			continue
+		}
+		if res.Exit != 0 || !strings.Contains(string(res.Stdout), "OK") || res.Hung {
+			r.Violation("health-client-refused", map[string]interface{}{"exit": res.Exit, "hung": res.Hung, "stdout": vlib.Trunc(string(res.Stdout), 400), "stderr": vlib.Trunc(string(res.Stderr), 600)})
+		}
+		os.RemoveAll(home)
+	}
 	// ---------------- health sessions can run nothing but health
 	secret := filepath.Join(srv.Spec.Dir, "secret.log")
 	os.WriteFile(secret, []byte("HEALTHSECRET-0123456789\n"), 0644)
